@@ -3,7 +3,7 @@
    Part 2: the watch invariant (WInv), Cover, construct, and one lemma per operation kind.
    Part 3: sequential histories, probe, non-recursive watch, pinned-code refutations. *)
 Require Import WD.Base.Prelude WD.Base.BStr WD.Model.SubEvents WD.Model.Emitter WD.Model.Fs WD.Model.Reader.
-Require Import WD.Proofs.SubEventsProofs.
+Require Import WD.Proofs.SubEventsProofs WD.Proofs.ReaderFixProofs.
 
 Local Arguments sep : simpl never.
 Local Opaque sep.
@@ -882,7 +882,7 @@ Section Cover.
                 cov {| k_watches := k_watches k ++ [nw]; k_next_wd := k_next_wd k + 1; k_queue := k_queue k;
                        k_next_cookie := k_next_cookie k |}
                     {| wfp := aset beqb (f_path e) (k_next_wd k) (wfp r); pfw := aset N.eqb (k_next_wd k) (f_path e) (pfw r);
-                       mvf := mvf r; calls := S (calls r) |} e0 kw0).
+                       mvf := mvf r; calls := S (calls r); pend := pend r |} e0 kw0).
       { intros e0 kw0 He0 (H1 & H2 & H3). destruct (watch_of_ino_some _ _ _ H1) as [Hk0 Ei0].
         unfold cov, watch_of_ino. cbn [k_watches wfp pfw].
         rewrite find_app. fold (watch_of_ino k (f_ino e0)). rewrite H1.
@@ -963,13 +963,40 @@ Section Cover.
       + intros x Hx. rewrite L2 by (intros H; apply Hx; now right). apply L1. intros E. apply Hx. left. congruence.
   Qed.
 
+  (* installing watches and re-keying leave the move-out candidate alone *)
+  Lemma add_watch_pend r k t p r' k' wd : add_watch C r k t p = Some (r', k', wd) -> pend r' = pend r.
+  Proof.
+    unfold add_watch. destruct (mem_nat (calls r) (c_faults C)); [discriminate|].
+    destruct (kadd_watch k t p (c_mask C)) as [[k1 wd1]|]; [|discriminate]. intros H. now injection H as <- _ _.
+  Qed.
+
+  Lemma add_dirs_pend t ps : forall r k, pend (fst (add_dirs C r k t ps)) = pend r.
+  Proof.
+    induction ps as [|p ps IH]; intros r k; cbn [add_dirs]; [reflexivity|].
+    destruct (add_watch C r k t p) as [[[r1 k1] wd]|] eqn:E; [|reflexivity].
+    rewrite IH. eapply add_watch_pend; eassumption.
+  Qed.
+
+  Lemma cgo_pend t ps : forall r k r' k', cgo t r k ps = Some (r', k') -> pend r' = pend r.
+  Proof.
+    induction ps as [|p ps IH]; intros r k r' k' H; cbn [cgo] in H; [now injection H as <- _|].
+    destruct (add_watch C r k t p) as [[[r1 k1] wd]|] eqn:E; [|discriminate].
+    fold (cgo t) in H. rewrite (IH _ _ _ _ H). eapply add_watch_pend; eassumption.
+  Qed.
+
+  Lemma rekey_loop_pend keys src dst : forall r, pend (rekey_loop keys src dst r) = pend r.
+  Proof.
+    induction keys as [|[p wd] keys IH]; intros r; cbn [rekey_loop]; [reflexivity|].
+    destruct (starts (src ++ [sep]) p); [|apply IH]. destruct (alookup beqb p (wfp r)); [|apply IH]. now rewrite IH.
+  Qed.
+
   Lemma WInv_init t : WInv t kinit rinit0.
   Proof. constructor; cbn; try constructor; try (intros ? []); try discriminate. Qed.
 
   (* 2a: construct establishes the invariant and Cover *)
   Theorem construct_cover w : wf_fs w -> fisdir root (w_fs w) = true ->
     exists r k, construct C kinit (w_fs w) = Some (r, k) /\ WInv (w_fs w) k r /\ Cover (w_fs w) k r /\
-                k_queue k = [] /\ mvf r = [].
+                k_queue k = [] /\ mvf r = [] /\ pend r = None.
   Proof.
     intros W Hroot. unfold construct. fold root. rewrite Hroot.
     destruct (fisdir_in _ _ Hroot) as (er & Her & Eer & Der).
@@ -982,12 +1009,12 @@ Section Cover.
       { apply Forall_forall. intros x Hx. rewrite Eer in Hx. apply (walk_dirs_spec w root W Hroot) in Hx as (e & He & Ee & De & Ue).
         exists e. repeat split; try assumption. unfold scope. rewrite Erec. now right. }
       destruct (cgo_ok w W _ k1 r1 I1 Hps) as (r2 & k2 & Hg & _ & I2 & (Q2 & N2 & M2 & X2) & Cv & _).
-      exists r2, k2. fold (cgo (w_fs w)). split; [exact Hg|]. split; [exact I2|]. split; [|split; [rewrite Q2, Q1; reflexivity | rewrite M2, M1; reflexivity]].
+      exists r2, k2. fold (cgo (w_fs w)). split; [exact Hg|]. split; [exact I2|]. split; [|split; [rewrite Q2, Q1; reflexivity | split; [rewrite M2, M1; reflexivity | rewrite (cgo_pend _ _ _ _ _ _ Hg), (add_watch_pend _ _ _ _ _ _ _ Ha); reflexivity]]].
       intros e He De Se. unfold scope in Se. rewrite Erec in Se. destruct Se as [Se|Se].
       + assert (e = er) by (apply (path_inj (w_fs w)); [apply W| | |]; congruence). subst e.
         exists kw. now apply X2.
       + apply Cv; [exact He|]. rewrite Eer. apply (walk_dirs_spec w root W Hroot). exists e. now repeat split.
-    - exists r1, k1. split; [reflexivity|]. split; [exact I1|]. split; [|split; [rewrite Q1; reflexivity | rewrite M1; reflexivity]].
+    - exists r1, k1. split; [reflexivity|]. split; [exact I1|]. split; [|split; [rewrite Q1; reflexivity | split; [rewrite M1; reflexivity | rewrite (add_watch_pend _ _ _ _ _ _ _ Ha); reflexivity]]].
       intros e He De Se. unfold scope in Se. rewrite Erec in Se.
       assert (e = er) by (apply (path_inj (w_fs w)); [apply W| | |]; congruence). subst e. now exists kw.
   Qed.
@@ -1003,12 +1030,17 @@ Section Cover.
     {| r_wd := k_wd e; r_mask := k_mask e; r_cookie := k_cookie e; r_name := k_name e;
        r_path := src_path_of wp (k_name e) |}.
 
-  Lemma read_one_inert t r k acc e wp : inert (k_mask e) -> alookup N.eqb (k_wd e) (pfw r) = Some wp ->
-    read_one C t (r, k, acc) e = Done (r, k, acc ++ [raw_ev wp e]).
+  Lemma read_one_inert_body t r k acc e wp : inert (k_mask e) -> alookup N.eqb (k_wd e) (pfw r) = Some wp ->
+    read_one_body C t (r, k, acc) e = Done (r, k, acc ++ [raw_ev wp e]).
   Proof.
-    intros (H1 & H2 & H3 & H4) Hp. unfold read_one. rewrite Hp, H1, H2, H3.
+    intros (H1 & H2 & H3 & H4) Hp. unfold read_one_body. rewrite Hp, H1, H2, H3.
     rewrite <- andb_assoc, H4, andb_false_r. reflexivity.
   Qed.
+
+  (* no directory move-out is pending: one loop iteration is the loop body *)
+  Lemma read_one_inert t r k acc e wp : pend r = None -> inert (k_mask e) -> alookup N.eqb (k_wd e) (pfw r) = Some wp ->
+    read_one C t (r, k, acc) e = Done (r, k, acc ++ [raw_ev wp e]).
+  Proof. intros Hpd Hi Hp. rewrite read_one_body_eq by exact Hpd. now apply read_one_inert_body. Qed.
 
   Lemma read_batch_app t st a b :
     read_batch C t st (a ++ b) = match read_batch C t st a with Done st' => read_batch C t st' b | Crash s => Crash s end.
@@ -1020,12 +1052,12 @@ Section Cover.
   Definition inert_ev (r : rstate) (e : kraw) : Prop :=
     inert (k_mask e) /\ exists wp, alookup N.eqb (k_wd e) (pfw r) = Some wp.
 
-  Lemma read_batch_inert t r k l : Forall (inert_ev r) l -> forall acc,
+  Lemma read_batch_inert t r k l : pend r = None -> Forall (inert_ev r) l -> forall acc,
     exists evs, read_batch C t (r, k, acc) l = Done (r, k, acc ++ evs) /\ length evs = length l.
   Proof.
-    induction 1 as [|e l (Hi & wp & Hp) Hl IH]; intros acc.
+    intros Hpd. induction 1 as [|e l (Hi & wp & Hp) Hl IH]; intros acc.
     - exists []. now rewrite app_nil_r.
-    - cbn [read_batch]. rewrite (read_one_inert _ _ _ _ _ wp Hi Hp).
+    - cbn [read_batch]. rewrite (read_one_inert _ _ _ _ _ wp Hpd Hi Hp).
       destruct (IH (acc ++ [raw_ev wp e])) as (evs & -> & Hlen). exists (raw_ev wp e :: evs).
       rewrite <- app_assoc. split; [reflexivity | cbn; lia].
   Qed.
@@ -1038,13 +1070,13 @@ Section Cover.
   Lemma good_rsafe e : good_mask (r_mask e) -> rsafe e.
   Proof. intros [H1 H2] H. rewrite H1, H2 in H. discriminate. Qed.
 
-  Lemma read_batch_inert' t r k l : Forall (inert_ev r) l -> forall acc,
+  Lemma read_batch_inert' t r k l : pend r = None -> Forall (inert_ev r) l -> forall acc,
     exists evs, read_batch C t (r, k, acc) l = Done (r, k, acc ++ evs) /\
       Forall2 (fun e ev => exists wp, alookup N.eqb (k_wd e) (pfw r) = Some wp /\ ev = raw_ev wp e) l evs.
   Proof.
-    induction 1 as [|e l (Hi & wp & Hp) Hl IH]; intros acc.
+    intros Hpd. induction 1 as [|e l (Hi & wp & Hp) Hl IH]; intros acc.
     - exists []. rewrite app_nil_r. split; [reflexivity | constructor].
-    - cbn [read_batch]. rewrite (read_one_inert _ _ _ _ _ wp Hi Hp).
+    - cbn [read_batch]. rewrite (read_one_inert _ _ _ _ _ wp Hpd Hi Hp).
       destruct (IH (acc ++ [raw_ev wp e])) as (evs & -> & HF). exists (raw_ev wp e :: evs).
       rewrite <- app_assoc. split; [reflexivity|]. constructor; [eauto | exact HF].
   Qed.
@@ -1090,10 +1122,12 @@ Section Cover.
   Proof. intros [H|H]; apply good_rsafe; rewrite H; split; reflexivity. Qed.
 
   (* one event: the output grows by the event itself (same mask) and simulated creations *)
-  Lemma read_one_shape t r k acc e r' k' acc' : read_one C t (r, k, acc) e = Done (r', k', acc') ->
-    exists ev sim, acc' = acc ++ ev :: sim /\ r_mask ev = k_mask e /\ Forall sim_mask sim.
+  Lemma read_one_shape_body t r k acc e r' k' acc' : read_one_body C t (r, k, acc) e = Done (r', k', acc') ->
+    acc' = acc \/ exists ev sim, acc' = acc ++ ev :: sim /\ r_mask ev = k_mask e /\ Forall sim_mask sim.
   Proof.
-    unfold read_one. destruct (alookup N.eqb (k_wd e) (pfw r)) as [wp|]; [|discriminate].
+    unfold read_one_body. destruct (alookup N.eqb (k_wd e) (pfw r)) as [wp|].
+    2:{ destruct (c_fix_moveout C); [|discriminate]. intros H. injection H as <- <- <-. now left. }
+    intros H. right. revert H.
     set (X := if is_moved_from (k_mask e) then _ else _).
     assert (HX : r_mask (snd X) = k_mask e).
     { unfold X. destruct (is_moved_from (k_mask e)); [reflexivity|]. destruct (is_moved_to (k_mask e)); [|reflexivity].
@@ -1113,13 +1147,20 @@ Section Cover.
     - intros H. injection H as <- <- <-. exists ev1, []. repeat split; auto.
   Qed.
 
+  (* the head of the loop body (settle_pending) produces no event *)
+  Lemma read_one_shape t r k acc e r' k' acc' : read_one C t (r, k, acc) e = Done (r', k', acc') ->
+    acc' = acc \/ exists ev sim, acc' = acc ++ ev :: sim /\ r_mask ev = k_mask e /\ Forall sim_mask sim.
+  Proof.
+    unfold read_one. destruct (settle_pending C r k e) as [r0 k0]. apply read_one_shape_body.
+  Qed.
+
   Lemma read_batch_good t b : Forall (fun e => good_mask (k_mask e)) b ->
     forall r k acc r' k' acc', Forall rsafe acc -> read_batch C t (r, k, acc) b = Done (r', k', acc') -> Forall rsafe acc'.
   Proof.
     induction 1 as [|e b He Hb IH]; intros r k acc r' k' acc' Ha H; cbn [read_batch] in H.
     - now injection H as <- <- <-.
     - destruct (read_one C t (r, k, acc) e) as [[[r1 k1] acc1]|] eqn:E1; [|discriminate].
-      destruct (read_one_shape _ _ _ _ _ _ _ _ E1) as (ev & sim & -> & Hm & Hs).
+      destruct (read_one_shape _ _ _ _ _ _ _ _ E1) as [->|(ev & sim & -> & Hm & Hs)]; [now apply (IH _ _ _ _ _ _ Ha H)|].
       apply (IH _ _ _ _ _ _ ) in H; [exact H|]. apply Forall_app. split; [exact Ha|].
       constructor; [apply good_rsafe; now rewrite Hm|]. eapply Forall_impl; [|exact Hs]. apply sim_mask_rsafe.
   Qed.
@@ -1199,7 +1240,8 @@ Section Cover.
     rs_root : isdir_in root (w_fs w);
     rs_inv : WInv (w_fs w) k r;
     rs_cover : Cover (w_fs w) k r;
-    rs_queue : k_queue k = []
+    rs_queue : k_queue k = [];
+    rs_pend : pend r = None            (* no directory IN_MOVED_FROM is waiting for its IN_MOVED_TO *)
   }.
 
   Definition drainq (k : kst) : kst := kset_queue k [].
@@ -1346,9 +1388,9 @@ Section Cover.
     exists evs, read_batch C (w_fs w') (r, drainq k1, []) (k_queue k1) = Done (r, drainq k1, evs) /\
                 length evs = length (k_queue k1) /\ RSync w' (drainq k1) r.
   Proof.
-    intros S Hnp Ho Ha k1. destruct S as [W Hr I Cv Hq].
+    intros S Hnp Ho Ha k1. destruct S as [W Hr I Cv Hq Hpd].
     destruct (quiet_kernel (w_fs w) k r o I Hq Ho) as (A & B & D & E). fold k1 in A, B, D, E.
-    destruct (read_batch_inert (w_fs w') r (drainq k1) _ E []) as (evs & Hrd & Hlen).
+    destruct (read_batch_inert (w_fs w') r (drainq k1) _ Hpd E []) as (evs & Hrd & Hlen).
     exists evs. split; [exact Hrd|]. split; [exact Hlen|].
     assert (Hfs := quiet_fs w o w' W Ho Ha).
     constructor.
@@ -1359,6 +1401,7 @@ Section Cover.
       + rewrite D. lia.
     - apply (Cover_ext (w_fs w) (w_fs w') k); try assumption. intros e He De. now apply Hfs.
     - reflexivity.
+    - exact Hpd.
   Qed.
 
   (* ------------------------------------------------------------------ 2b: Mkdir *)
@@ -1375,7 +1418,7 @@ Section Cover.
     is_moved_from (k_mask e) = false -> is_moved_to (k_mask e) = false -> is_ignored (k_mask e) = false ->
     is_directory (k_mask e) = true -> is_create (k_mask e) = true ->
     alookup N.eqb (k_wd e) (pfw r) = Some wp ->
-    read_one C t (r, k, acc) e =
+    read_one_body C t (r, k, acc) e =
       let ev := raw_ev wp e in
       if c_recursive C then
         match add_watch C r k t (r_path ev) with
@@ -1384,7 +1427,7 @@ Section Cover.
         end
       else Done (r, k, acc ++ [ev]).
   Proof.
-    intros H1 H2 H3 H4 H5 Hp. unfold read_one. rewrite Hp, H1, H2, H3, H4, H5. cbn [andb].
+    intros H1 H2 H3 H4 H5 Hp. unfold read_one_body. rewrite Hp, H1, H2, H3, H4, H5. cbn [andb].
     destruct (c_recursive C); reflexivity.
   Qed.
 
@@ -1424,7 +1467,7 @@ Section Cover.
     exists r' k' evs, read_batch C (w_fs w') (r, drainq k1, []) (k_queue k1) = Done (r', k', evs) /\ RSync w' k' r' /\
       (forall x, x <> p -> alookup beqb x (wfp r') = alookup beqb x (wfp r)).
   Proof.
-    intros S Np Ha Hm k1. destruct S as [W Hr I Cv Hq].
+    intros S Np Ha Hm k1. destruct S as [W Hr I Cv Hq Hpd].
     assert (W' : wf_fs w') by exact (wf_apply_op w (Mkdir p) w' W Np Ha).
     cbn [apply_op] in Ha.
     destruct (fisdir (dirname p) (w_fs w)) eqn:Ed; [|discriminate].
@@ -1449,6 +1492,7 @@ Section Cover.
       { apply (WInv_ext (w_fs w) _ k); try assumption; try reflexivity; try (cbn; lia).
         intros e He _. apply in_app_iff. now left. }
       destruct (npath_parts p Np) as (Ep & Gd & Vn & Jp).
+      rewrite read_one_body_eq by exact Hpd.
       rewrite (read_one_create _ _ _ _ _ (dirname p)); try (vm_compute; reflexivity);
         [|cbn [kev k_wd]; now rewrite Pde, Ede].
       assert (Epath : r_path (raw_ev (dirname p) (kev kw IN_CREATE true 0 (basename p))) = p).
@@ -1470,7 +1514,8 @@ Section Cover.
               + left. intros (y & Hy & Ey & _). apply Ex. rewrite <- Ey. now apply in_map.
             - unfold is_child. cbn. now rewrite beqb_refl, andb_false_r. }
         cbn. eexists _, _, _. split; [reflexivity|]. split.
-        * constructor; try assumption; try (rewrite Q3; reflexivity).
+        * constructor; try assumption; try (rewrite Q3; reflexivity);
+            try (rewrite (add_watch_pend _ _ _ _ _ _ _ Hadd); exact Hpd).
           intros e He De Se. destruct (Hnew e He De) as [->|He0]; [now exists kwx|].
           destruct (Cv e He0 De Se) as (kw0 & C0). exists kw0. apply P3; [exact He|].
           destruct C0 as (A1 & A2 & A3). split; [|split]; assumption.
@@ -1546,11 +1591,11 @@ Section Cover.
   Qed.
 
   Lemma read_one_ignored t r k acc wd p : alookup N.eqb wd (pfw r) = Some p -> alookup beqb p (wfp r) = Some wd ->
-    read_one C t (r, k, acc) {| k_wd := wd; k_mask := IN_IGNORED; k_cookie := 0; k_name := [] |} =
-    Done ({| wfp := aremove beqb p (wfp r); pfw := aremove N.eqb wd (pfw r); mvf := mvf r; calls := calls r |}, k,
+    read_one_body C t (r, k, acc) {| k_wd := wd; k_mask := IN_IGNORED; k_cookie := 0; k_name := [] |} =
+    Done ({| wfp := aremove beqb p (wfp r); pfw := aremove N.eqb wd (pfw r); mvf := mvf r; calls := calls r; pend := pend r |}, k,
           acc ++ [{| r_wd := wd; r_mask := IN_IGNORED; r_cookie := 0; r_name := []; r_path := p |}]).
   Proof.
-    intros Hp Hw. unfold read_one. cbn [k_wd k_mask k_cookie k_name]. rewrite Hp.
+    intros Hp Hw. unfold read_one_body. cbn [k_wd k_mask k_cookie k_name]. rewrite Hp.
     change (is_moved_from IN_IGNORED) with false. change (is_moved_to IN_IGNORED) with false.
     change (is_ignored IN_IGNORED) with true. change (is_directory IN_IGNORED) with false. cbv iota.
     cbn [pfw wfp mvf calls]. rewrite Hp, Hw, N.eqb_refl. rewrite andb_false_r. reflexivity.
@@ -1558,7 +1603,7 @@ Section Cover.
 
   (* the watch state after the kernel dropped the watch kw of directory entry ep and the reader saw IN_IGNORED *)
   Definition dropped (r : rstate) (p : bytes) (wd : N) : rstate :=
-    {| wfp := aremove beqb p (wfp r); pfw := aremove N.eqb wd (pfw r); mvf := mvf r; calls := calls r |}.
+    {| wfp := aremove beqb p (wfp r); pfw := aremove N.eqb wd (pfw r); mvf := mvf r; calls := calls r; pend := pend r |}.
 
   Lemma dropped_sync w t' k r ep kw k' :
     wf_fs w -> WInv (w_fs w) k r -> Cover (w_fs w) k r -> In ep (w_fs w) -> cov k r ep kw ->
@@ -1612,7 +1657,7 @@ Section Cover.
     exists r' k' evs, read_batch C (w_fs w') (r, drainq k1, []) (k_queue k1) = Done (r', k', evs) /\ RSync w' k' r' /\
       Forall rsafe evs.
   Proof.
-    intros S Np Hpr Ha k1. destruct S as [W Hr I Cv Hq].
+    intros S Np Hpr Ha k1. destruct S as [W Hr I Cv Hq Hpd].
     assert (W' : wf_fs w') by exact (wf_apply_op w (Rmdir p) w' W Np Ha).
     cbn [apply_op] in Ha.
     destruct (flookup p (w_fs w)) as [ep|] eqn:El; [|discriminate].
@@ -1651,11 +1696,11 @@ Section Cover.
           rewrite prem_neq by assumption. destruct (wi_exact _ _ _ I kw' Hk') as (e & _ & _ & _ & _ & Pe & _). eauto. }
       destruct Hpost as (post & Eq & Ew3 & En3 & Ec3 & Hpost & Hpostg). rewrite Eq.
       rewrite read_batch_app.
-      destruct (read_batch_inert' (fremove p (w_fs w)) r (drainq (knotify k3 di IN_DELETE true 0 n)) pre Hpre_inert [])
+      destruct (read_batch_inert' (fremove p (w_fs w)) r (drainq (knotify k3 di IN_DELETE true 0 n)) pre Hpd Hpre_inert [])
         as (evs1 & -> & HF1).
-      cbn [app read_batch]. unfold ign_ev. rewrite (read_one_ignored _ _ _ _ _ p Cp Cf).
+      cbn [app read_batch]. unfold ign_ev. rewrite read_one_body_eq by exact Hpd. rewrite (read_one_ignored _ _ _ _ _ p Cp Cf).
       fold (dropped r p (kw_wd kw)).
-      destruct (read_batch_inert' (fremove p (w_fs w)) _ (drainq (knotify k3 di IN_DELETE true 0 n)) post Hpost
+      destruct (read_batch_inert' (fremove p (w_fs w)) (dropped r p (kw_wd kw)) (drainq (knotify k3 di IN_DELETE true 0 n)) post Hpd Hpost
                   (evs1 ++ [{| r_wd := kw_wd kw; r_mask := IN_IGNORED; r_cookie := 0; r_name := []; r_path := p |}]))
         as (evs2 & -> & HF2).
       eexists _, _, _. split; [reflexivity|].
@@ -1674,7 +1719,7 @@ Section Cover.
     - cbn [kgone]. unfold kgone. rewrite Ew.
       destruct (knotify_inert (w_fs w) k r k di IN_DELETE true 0 n I eq_refl) as (A1 & B1 & C1 & D1);
         [rewrite Hq; constructor | inert_mask|].
-      destruct (read_batch_inert' (fremove p (w_fs w)) r (drainq (knotify k di IN_DELETE true 0 n)) _ D1 []) as (evs & -> & HF).
+      destruct (read_batch_inert' (fremove p (w_fs w)) r (drainq (knotify k di IN_DELETE true 0 n)) _ Hpd D1 []) as (evs & -> & HF).
       eexists _, _, _. split; [reflexivity|]. split.
       2:{ cbn [app]. apply (inert_raws_good r _ evs HF).
           apply (knotify_inv (fun e => good_mask (k_mask e))); [rewrite Hq; constructor | intros; split; reflexivity]. }
@@ -1720,7 +1765,7 @@ Section Cover.
 
     Lemma RK_step r x wd : RK r -> under src x = true -> alookup beqb x (wfp r) = Some wd ->
       RK {| wfp := aset beqb (rk src dst x) wd (aremove beqb x (wfp r)); pfw := aset N.eqb wd (rk src dst x) (pfw r);
-            mvf := mvf r; calls := calls r |}.
+            mvf := mvf r; calls := calls r; pend := pend r |}.
     Proof.
       intros J Hx Hb.
       assert (Hnx : forall y z, under src y = true -> under src z = true -> y = rk src dst z -> False).
@@ -1822,11 +1867,13 @@ Section Cover.
   Lemma read_one_from t r k acc e wp :
     is_moved_from (k_mask e) = true -> is_ignored (k_mask e) = false -> is_create (k_mask e) = false ->
     alookup N.eqb (k_wd e) (pfw r) = Some wp ->
-    read_one C t (r, k, acc) e =
-      Done ({| wfp := wfp r; pfw := pfw r; mvf := aset N.eqb (k_cookie e) (src_path_of wp (k_name e)) (mvf r); calls := calls r |},
+    read_one_body C t (r, k, acc) e =
+      Done ({| wfp := wfp r; pfw := pfw r; mvf := aset N.eqb (k_cookie e) (src_path_of wp (k_name e)) (mvf r); calls := calls r;
+               pend := if c_fix_moveout C && c_recursive C && is_directory (k_mask e)
+                       then Some (k_cookie e, src_path_of wp (k_name e)) else pend r |},
             k, acc ++ [raw_ev wp e]).
   Proof.
-    intros H1 H3 H5 Hp. unfold read_one. rewrite Hp, H1, H3, H5. now rewrite andb_false_r.
+    intros H1 H3 H5 Hp. unfold read_one_body. rewrite Hp, H1, H3, H5. now rewrite andb_false_r.
   Qed.
 
   Definition raw_to (wp : bytes) (e : kraw) : raw :=
@@ -1838,9 +1885,9 @@ Section Cover.
     (alookup N.eqb (k_cookie e) (mvf r) = None \/
      exists msrc, alookup N.eqb (k_cookie e) (mvf r) = Some msrc /\ alookup beqb msrc (wfp r) = None) ->
     (c_fix_movein C && c_recursive C && is_directory (k_mask e) && fisdir (src_path_of wp (k_name e)) t) = false ->
-    read_one C t (r, k, acc) e = Done (r, k, acc ++ [raw_to wp e]).
+    read_one_body C t (r, k, acc) e = Done (r, k, acc ++ [raw_to wp e]).
   Proof.
-    intros H1 H2 H3 H5 Hp Hl Hc. unfold read_one. rewrite Hp, H1, H2, H3, H5. unfold src_path_of in Hc.
+    intros H1 H2 H3 H5 Hp Hl Hc. unfold read_one_body. rewrite Hp, H1, H2, H3, H5. unfold src_path_of in Hc.
     destruct Hl as [Hl|(msrc & Hl & Hw)]; rewrite Hl; [|rewrite Hw]; rewrite Hc; now rewrite andb_false_r.
   Qed.
 
@@ -1848,13 +1895,13 @@ Section Cover.
     is_moved_from (k_mask e) = false -> is_moved_to (k_mask e) = true -> is_ignored (k_mask e) = false ->
     is_create (k_mask e) = false -> alookup N.eqb (k_wd e) (pfw r) = Some wp ->
     alookup N.eqb (k_cookie e) (mvf r) = Some msrc -> alookup beqb msrc (wfp r) = Some mwd ->
-    read_one C t (r, k, acc) e =
+    read_one_body C t (r, k, acc) e =
       let sp := src_path_of wp (k_name e) in
       let r' := {| wfp := aset beqb sp mwd (aremove beqb msrc (wfp r)); pfw := aset N.eqb mwd sp (pfw r);
-                   mvf := mvf r; calls := calls r |} in
+                   mvf := mvf r; calls := calls r; pend := pend r |} in
       Done ((if c_recursive C then rekey_loop (wfp r') msrc sp r' else r'), k, acc ++ [raw_to wp e]).
   Proof.
-    intros H1 H2 H3 H5 Hp Hl Hw. unfold read_one. rewrite Hp, H1, H2, H3, H5, Hl, Hw. now rewrite andb_false_r.
+    intros H1 H2 H3 H5 Hp Hl Hw. unfold read_one_body. rewrite Hp, H1, H2, H3, H5, Hl, Hw. now rewrite andb_false_r.
   Qed.
 
   Lemma read_one_to_movein t r k acc e wp :
@@ -1863,13 +1910,25 @@ Section Cover.
     (alookup N.eqb (k_cookie e) (mvf r) = None \/
      exists msrc, alookup N.eqb (k_cookie e) (mvf r) = Some msrc /\ alookup beqb msrc (wfp r) = None) ->
     (c_fix_movein C && c_recursive C && is_directory (k_mask e) && fisdir (src_path_of wp (k_name e)) t) = true ->
-    read_one C t (r, k, acc) e =
+    read_one_body C t (r, k, acc) e =
       let sp := src_path_of wp (k_name e) in
       let '(r', k') := add_dirs C r k t (sp :: walk_dirs t sp) in Done (r', k', acc ++ [raw_to wp e]).
   Proof.
-    intros H1 H2 H3 H5 Hp Hl Hc. unfold read_one. rewrite Hp, H1, H2, H3, H5. unfold src_path_of in *.
+    intros H1 H2 H3 H5 Hp Hl Hc. unfold read_one_body. rewrite Hp, H1, H2, H3, H5. unfold src_path_of in *.
     destruct Hl as [Hl|(msrc & Hl & Hw)]; rewrite Hl; [|rewrite Hw]; rewrite Hc;
       destruct (add_dirs C r k t _) as [r' k']; now rewrite andb_false_r.
+  Qed.
+
+  (* the record after a directory IN_MOVED_FROM is its IN_MOVED_TO: the candidate is dropped, then the loop body *)
+  Lemma read_one_after_from t r k acc e (b : bool) x : is_moved_to (k_mask e) = true ->
+    amem N.eqb (k_wd e) (pfw r) = true ->
+    pend r = (if c_fix_moveout C && b then Some (k_cookie e, x) else None) ->
+    read_one C t (r, k, acc) e =
+    read_one_body C t ({| wfp := wfp r; pfw := pfw r; mvf := mvf r; calls := calls r; pend := None |}, k, acc) e.
+  Proof.
+    intros Hm Hw Hp. destruct (c_fix_moveout C && b) eqn:E.
+    - apply andb_true_iff in E as [Ef _]. unfold read_one. now rewrite (settle_pending_match C r k e _ _ Ef Hp Hm eq_refl Hw).
+    - rewrite read_one_body_eq by exact Hp. destruct r; cbn in *. now subst.
   Qed.
 
   (* the two kernel events of a rename *)
@@ -1921,154 +1980,14 @@ Section Cover.
     apply under_spec in E as [rest ->]. rewrite skipn_app_length. now apply scope_child.
   Qed.
 
-  (* Rename of a directory inside the tree: the moved directory and every directory below it carry the new prefix *)
-  Theorem step_rename_dir_inside w k r p q w' ep : RSync w k r -> npath p -> npath q -> c_recursive C = true ->
-    N.land IN_MOVED_FROM (c_mask C) <> 0%N -> N.land IN_MOVED_TO (c_mask C) <> 0%N ->
-    apply_op w (Rename p q) = Some w' ->
-    flookup p (w_fs w) = Some ep -> f_dir ep = true -> scope p -> p <> root -> scope q -> flookup q (w_fs w) = None ->
-    let k1 := kernel_op k (w_fs w) (Rename p q) in
-    exists r' k' evs, read_batch C (w_fs w') (r, drainq k1, []) (k_queue k1) = Done (r', k', evs) /\ RSync w' k' r'.
-  Proof.
-    intros S Np Nq Hrec Hmf Hmt Ha Elp Dep Sp Hpr Sq Elq k1. destruct S as [W Hr I Cv Hq].
-    assert (W' : wf_fs w') by exact (wf_apply_op w (Rename p q) w' W (conj Np Nq) Ha).
-    destruct (rename_inv w p q w' W Np Nq Ha) as (ep' & t1 & Elp' & Hne & Hupq & Edq & -> & Hbelow & Hq1).
-    assert (ep' = ep) by congruence. subst ep'.
-    destruct Hq1 as [[_ ->]|(v & Ev & _)]; [|congruence]. cbn [w_fs] in *.
-    destruct (flookup_some _ _ _ Elp) as [Hep Eep].
-    assert (Hqr : q <> root).
-    { intros E. destruct Hr as (er & Her & Eer & _). apply flookup_none in Elq. apply Elq. rewrite E, <- Eer. now apply in_map. }
-    destruct (scope_parent p Np Sp Hpr) as [Sdp _]. destruct (scope_parent q Nq Sq Hqr) as [Sdq _].
-    assert (Urp : under root p = true).
-    { unfold scope in Sp. rewrite Hrec in Sp. destruct Sp as [Sp|Sp]; [contradiction | exact Sp]. }
-    assert (Hupr : under p root = false) by now apply under_antisym.
-    destruct Hr as (er & Her & Eer & Der).
-    (* the two parents *)
-    assert (Hdp : isdir_in (dirname p) (w_fs w)).
-    { rewrite <- Eep. apply (wf_parent w W ep er Hep Her). now rewrite Eep, Eer. }
-    destruct Hdp as (dp & Hdp & Edp & Ddp). destruct (fisdir_in _ _ Edq) as (dq & Hdq & Edq' & Ddq).
-    rewrite <- Edp in Sdp. rewrite <- Edq' in Sdq.
-    destruct (Cv dp Hdp Ddp Sdp) as (kwp & Cwp & Cpp & Cfp). destruct (Cv dq Hdq Ddq Sdq) as (kwq & Cwq & Cpq & Cfq).
-    destruct (Cv ep Hep Dep) as (kwe & Cwe & Cpe & Cfe); [now rewrite Eep|]. rewrite Eep in Cpe, Cfe.
-    assert (Ip : ino_of (w_fs w) (dirname p) = f_ino dp) by (unfold ino_of; rewrite <- Edp; now rewrite (flookup_in _ dp (wf_paths w W) Hdp)).
-    assert (Iq : ino_of (w_fs w) (dirname q) = f_ino dq) by (unfold ino_of; rewrite <- Edq'; now rewrite (flookup_in _ dq (wf_paths w W) Hdq)).
-    assert (Fq : fisdir q (w_fs w) = false) by (unfold fisdir; now rewrite Elq).
-    assert (Fp : fisdir p (w_fs w) = true) by (unfold fisdir; now rewrite Elp).
-    subst k1. cbn [kernel_op]. rewrite Fq.
-    rewrite rename_kernel; [|exact Hq|].
-    2:{ intros kw Hk. rewrite (wi_mask _ _ _ I kw Hk). now split. }
-    rewrite Ip, Iq, Cwp, Cwq, Fp. cbn [k_queue app].
-    set (c := k_next_cookie k).
-    set (k0 := drainq _).
-    destruct (npath_parts p Np) as (Ep & Gdp & Vbp & Jp). destruct (npath_parts q Nq) as (Eq & Gdq & Vbq & Jq).
-    assert (SPp : src_path_of (dirname p) (basename p) = p) by (unfold src_path_of; destruct (basename p); [discriminate Vbp | exact Jp]).
-    assert (SPq : src_path_of (dirname q) (basename q) = q) by (unfold src_path_of; destruct (basename q); [discriminate Vbq | exact Jq]).
-    cbn [read_batch].
-    rewrite (read_one_from _ _ _ _ _ (dirname p)); try (vm_compute; reflexivity); [|cbn [mv_from kev k_wd]; now rewrite Cpp, Edp].
-    cbn [mv_from kev k_cookie k_name]. rewrite SPp.
-    set (r1 := {| wfp := wfp r; pfw := pfw r; mvf := aset N.eqb c p (mvf r); calls := calls r |}).
-    rewrite (read_one_to_rekey _ r1 _ _ _ (dirname q) p (kw_wd kwe)); try (vm_compute; reflexivity);
-      [|cbn [mv_to kev k_wd r1 pfw]; now rewrite Cpq, Edq' | cbn [mv_to kev k_cookie r1 mvf]; apply pset_eq | exact Cfe].
-    cbn [mv_to kev k_name]. rewrite SPq, Hrec. cbv zeta.
-    set (mwd := kw_wd kwe).
-    set (r' := {| wfp := aset beqb q mwd (aremove beqb p (wfp r1)); pfw := aset N.eqb mwd q (pfw r1); mvf := mvf r1; calls := calls r1 |}).
-    eexists _, _, _. split; [reflexivity|].
-    (* bindings of r' *)
-    assert (B' : forall x wd, alookup beqb x (wfp r') = Some wd ->
-                (x = q /\ wd = mwd) \/ (x <> q /\ x <> p /\ alookup beqb x (wfp r) = Some wd)).
-    { intros x wd Hx. cbn [r' wfp r1] in Hx. destruct (bytes_eq_dec x q) as [->|Hxq].
-      - rewrite wset_eq in Hx. left. split; congruence.
-      - rewrite wset_neq in Hx by assumption. destruct (bytes_eq_dec x p) as [->|Hxp]; [now rewrite wrem_eq in Hx|].
-        rewrite wrem_neq in Hx by assumption. right. auto. }
-    assert (B'' : forall x wd, x <> q -> x <> p -> alookup beqb x (wfp r) = Some wd -> alookup beqb x (wfp r') = Some wd).
-    { intros x wd Hxq Hxp Hx. cbn [r' wfp r1]. rewrite wset_neq by assumption. now rewrite wrem_neq. }
-    assert (Gp := npath_gpath _ Np).
-    assert (Hsd : forall rest, under p (q ++ sep :: rest) = false).
-    { intros rest. apply under_disjoint; try assumption. rewrite <- Eep. now apply Hbelow. }
-    assert (K1 : forall x wd, alookup beqb x (wfp r') = Some wd -> under q x = false).
-    { intros x wd Hx. destruct (B' x wd Hx) as [[-> _]|(_ & _ & Hx')]; [apply under_irrefl|].
-      destruct (tight_entry w k r x wd I Hx') as (e & _ & He & _ & _ & <- & _). now apply Hbelow. }
-    assert (K2 : forall x y wd, alookup beqb x (wfp r') = Some wd -> alookup beqb y (wfp r') = Some wd -> x = y).
-    { intros x y wd Hx Hy.
-      destruct (B' x wd Hx) as [[-> Ex]|(Nxq & Nxp & Hx')]; destruct (B' y wd Hy) as [[-> Ey]|(Nyq & Nyp & Hy')]; try reflexivity.
-      - subst wd. exfalso. apply Nyp. destruct (wi_tight _ _ _ I y mwd Hy') as [_ Py]. unfold mwd in Py. congruence.
-      - subst wd. exfalso. apply Nxp. destruct (wi_tight _ _ _ I x mwd Hx') as [_ Px]. unfold mwd in Px. congruence.
-      - destruct (wi_tight _ _ _ I x wd Hx') as [_ Px]. destruct (wi_tight _ _ _ I y wd Hy') as [_ Py]. congruence. }
-    destruct (rekey_all p q (proj1 Gp) Hsd r' K1 K2) as [J T].
-    set (r'' := rekey_loop (wfp r') p q r') in *.
-    (* the facts about every covered directory *)
-    assert (F : forall e kw, In e (w_fs w) -> f_dir e = true -> scope (f_path e) -> cov k r e kw ->
-                alookup beqb (rk p q (f_path e)) (wfp r'') = Some (kw_wd kw) /\
-                alookup N.eqb (kw_wd kw) (pfw r'') = Some (rk p q (f_path e))).
-    { intros e kw He De Se (Cw & Cp & Cf).
-      assert (Hxq : f_path e <> q).
-      { intros E. apply flookup_none in Elq. apply Elq. rewrite <- E. now apply in_map. }
-      destruct (bytes_eq_dec (f_path e) p) as [Exp|Nxp].
-      - assert (e = ep) by (apply (path_inj (w_fs w)); [apply W| | |]; congruence). subst e.
-        assert (kw = kwe) by congruence. subst kw. rewrite Exp, rk_self. fold mwd.
-        assert (Hb : alookup beqb q (wfp r') = Some mwd) by (cbn [r' wfp]; apply wset_eq).
-        split.
-        + destruct (j2 _ _ _ _ J q mwd Hb) as [Hs|(Hu & _)]; [exact Hs | congruence].
-        + rewrite (j3 _ _ _ _ J); [cbn [r' pfw]; apply pset_eq|].
-          intros x0 Hu Hx0. assert (x0 = q) by (eapply K2; eauto). subst x0. congruence.
-      - assert (Hb : alookup beqb (f_path e) (wfp r') = Some (kw_wd kw)) by now apply B''.
-        destruct (under p (f_path e)) eqn:Eu.
-        + destruct (j2 _ _ _ _ J _ _ Hb) as [Hs|(_ & _ & Hm & Hp)]; [rewrite T in Hs by assumption; discriminate | now split].
-        + rewrite rk_other by assumption. split.
-          * destruct (j2 _ _ _ _ J _ _ Hb) as [Hs|(Hu & _)]; [exact Hs | congruence].
-          * rewrite (j3 _ _ _ _ J).
-            -- cbn [r' pfw r1]. rewrite pset_neq; [exact Cp|]. intros E. apply Nxp.
-               unfold mwd in E. rewrite E in Cp. congruence.
-            -- intros x0 Hu Hx0. assert (x0 = f_path e) by (eapply K2; eauto). subst x0. congruence. }
-    assert (Hmv : mvf r'' = aset N.eqb c p (mvf r)) by (rewrite (j5 _ _ _ _ J); reflexivity).
-    assert (Hren_root : ren p q er = er).
-    { unfold ren. rewrite Eer. destruct (beqb root p) eqn:E; [apply beqb_eq in E; congruence|]. now rewrite Hupr. }
-    constructor.
-    - exact W'.
-    - exists er. cbn [w_fs]. rewrite frename_map. split; [|auto]. rewrite <- Hren_root. now apply in_map.
-    - cbn [w_fs]. rewrite frename_map. constructor; cbn [k0 drainq kset_queue k_watches k_next_wd k_next_cookie]; try apply I.
-      + intros kw Hk. destruct (wi_exact _ _ _ I kw Hk) as (e & He & De & Se & Ie & Pe & We).
-        assert (Ce : cov k r e kw).
-        { split; [|split]; try assumption. apply watch_of_ino_in; [apply I | assumption | congruence]. }
-        destruct (F e kw He De Se Ce) as [F1 F2].
-        exists (ren p q e). rewrite ren_path, ren_dir, ren_ino. repeat split; try assumption.
-        * now apply in_map.
-        * now apply scope_rk.
-      + intros y wd Hy. destruct (j1 _ _ _ _ J y wd Hy) as (x0 & H0 & Hy0).
-        destruct (B' x0 wd H0) as [[-> ->]|(Nq0 & Np0 & H0')].
-        * assert (y = q).
-          { destruct Hy0 as [->|[Hu _]]; [reflexivity | congruence]. }
-          subst y. destruct (watch_of_ino_some _ _ _ Cwe) as [Hke _].
-          split; [exists kwe; now split|]. assert (Ce : cov k r ep kwe) by (split; [|split]; now rewrite ?Eep).
-          destruct (F ep kwe Hep Dep) as [_ F2]; [now rewrite Eep | exact Ce|]. rewrite Eep, rk_self in F2. exact F2.
-        * destruct (tight_entry w k r x0 wd I H0') as (e & kw & He & De & Se & Ee & Hk & Ewd & Ei).
-          destruct (wi_tight _ _ _ I x0 wd H0') as [_ P0].
-          assert (Ce : cov k r e kw).
-          { split; [|split]; rewrite ?Ee, ?Ewd; try assumption. apply watch_of_ino_in; [apply I | assumption | congruence]. }
-          destruct (F e kw He De Se Ce) as [F1 F2]. rewrite Ee, Ewd in F1, F2.
-          split; [exists kw; now split|].
-          destruct Hy0 as [->|[Hu ->]]; [|exact F2].
-          destruct (under p x0) eqn:Eu; [rewrite T in Hy by assumption; discriminate|].
-          now rewrite rk_other in F2 by assumption.
-      + rewrite Hmv. apply mvf_aset_lt; [exact 0%N|]. apply I.
-    - cbn [w_fs]. rewrite frename_map. intros e' He' De' Se'. apply in_map_iff in He' as (e & <- & He).
-      rewrite ren_dir in De'. rewrite ren_path in Se'.
-      assert (Se : scope (f_path e)).
-      { unfold rk in Se'. destruct (beqb (f_path e) p) eqn:E1; [apply beqb_eq in E1; now rewrite E1|].
-        destruct (under p (f_path e)) eqn:E2; [|exact Se']. unfold scope. rewrite Hrec. right.
-        eapply under_trans; eassumption. }
-      destruct (Cv e He De' Se) as (kw & Ce). destruct (F e kw He De' Se Ce) as [F1 F2].
-      exists kw. unfold cov. rewrite ren_ino, ren_path. split; [|split]; try assumption.
-      destruct Ce as (Cw & _). rewrite (watch_of_ino_ext k k0); [exact Cw | reflexivity].
-    - reflexivity.
-  Qed.
 
   Lemma RSync_same' w w' k k' r r' : wf_fs w' -> RSync w k r ->
     (forall e, f_dir e = true -> scope (f_path e) -> In e (w_fs w) <-> In e (w_fs w')) ->
     k_watches k' = k_watches k -> k_next_wd k' = k_next_wd k -> k_queue k' = [] ->
     wfp r' = wfp r -> pfw r' = pfw r -> (forall c x, alookup N.eqb c (mvf r') = Some x -> (c < k_next_cookie k')%N) ->
-    RSync w' k' r'.
+    pend r' = None -> RSync w' k' r'.
   Proof.
-    intros W' [W Hr I Cv Hq] Hfs Hw Hn Hq' Hwf Hpf Hmv. constructor; try assumption.
+    intros W' [W Hr I Cv Hq Hpd] Hfs Hw Hn Hq' Hwf Hpf Hmv Hpd'. constructor; try assumption.
     - destruct Hr as (e & He & Ee & De). exists e. split; [|auto]. apply Hfs; try assumption.
       rewrite Ee. unfold scope. destruct (c_recursive C); auto.
     - constructor; rewrite ?Hw, ?Hn, ?Hwf, ?Hpf; try apply I; [|exact Hmv].
@@ -2081,7 +2000,7 @@ Section Cover.
     (forall e, f_dir e = true -> In e (w_fs w) <-> In e (w_fs w')) ->
     k_watches k' = k_watches k -> k_next_wd k' = k_next_wd k -> k_queue k' = [] ->
     wfp r' = wfp r -> pfw r' = pfw r -> (forall c x, alookup N.eqb c (mvf r') = Some x -> (c < k_next_cookie k')%N) ->
-    RSync w' k' r'.
+    pend r' = None -> RSync w' k' r'.
   Proof. intros W' S Hfs. apply (RSync_same' w); try assumption. intros e De _. now apply Hfs. Qed.
 
   (* Rename of a file: inside, in, out, replacing a file - the watch state is untouched *)
@@ -2093,7 +2012,7 @@ Section Cover.
     exists r' k' evs, read_batch C (w_fs w') (r, drainq k1, []) (k_queue k1) = Done (r', k', evs) /\ RSync w' k' r' /\
       wfp r' = wfp r /\ pfw r' = pfw r.
   Proof.
-    intros S Np Nq Hmf Hmt Ha Elp Dep Edp k1. assert (S0 := S). destruct S as [W Hr I Cv Hq].
+    intros S Np Nq Hmf Hmt Ha Elp Dep Edp k1. assert (S0 := S). destruct S as [W Hr I Cv Hq Hpd].
     assert (W' : wf_fs w') by exact (wf_apply_op w (Rename p q) w' W (conj Np Nq) Ha).
     destruct (rename_inv w p q w' W Np Nq Ha) as (ep' & t1 & Elp' & Hne & Hupq & Edq & -> & Hbelow & Hq1).
     assert (ep' = ep) by congruence. subst ep'. destruct (flookup_some _ _ _ Elp) as [Hep Eep].
@@ -2130,7 +2049,7 @@ Section Cover.
     set (c := k_next_cookie k). set (k0 := drainq _).
     destruct (npath_parts p Np) as (Ep & Gdp & Vbp & Jp). destruct (npath_parts q Nq) as (Eq & Gdq & Vbq & Jq).
     assert (SPp : src_path_of (dirname p) (basename p) = p) by (unfold src_path_of; destruct (basename p); [discriminate Vbp | exact Jp]).
-    set (r1 := {| wfp := wfp r; pfw := pfw r; mvf := aset N.eqb c p (mvf r); calls := calls r |}).
+    set (r1 := {| wfp := wfp r; pfw := pfw r; mvf := aset N.eqb c p (mvf r); calls := calls r; pend := pend r |}).
     assert (Hwp : alookup beqb p (wfp r) = None).
     { destruct (alookup beqb p (wfp r)) as [wd|] eqn:E; [|reflexivity]. exfalso.
       destruct (tight_entry w k r p wd I E) as (e & _ & He & De & _ & Ee & _).
@@ -2144,20 +2063,24 @@ Section Cover.
       (alookup N.eqb c (mvf ra) = None \/ exists msrc, alookup N.eqb c (mvf ra) = Some msrc /\ alookup beqb msrc (wfp ra) = None)).
     { destruct (watch_of_ino k (f_ino dp)) as [kwp|] eqn:Ewp.
       - destruct (watched_entry w k r dp kwp W I Hdp Ewp) as (_ & _ & (_ & Pp & _) & _).
-        cbn [read_batch]. rewrite (read_one_from _ _ _ _ _ (dirname p)); try (vm_compute; reflexivity);
+        cbn [read_batch]. rewrite read_one_body_eq by exact Hpd.
+        rewrite (read_one_from _ _ _ _ _ (dirname p)); try (vm_compute; reflexivity);
           [|cbn [mv_from kev k_wd]; now rewrite Pp, Edp'].
-        cbn [mv_from kev k_cookie k_name]. rewrite SPp. fold r1. eexists r1, _. split; [reflexivity|]. split; [now right|].
+        cbn [mv_from kev k_cookie k_name k_mask]. change (is_directory IN_MOVED_FROM) with false.
+        rewrite andb_false_r, SPp. fold r1. eexists r1, _. split; [reflexivity|]. split; [now right|].
         right. exists p. cbn [r1 mvf wfp]. split; [apply pset_eq | exact Hwp].
       - exists r, []. split; [reflexivity|]. split; [now left|]. left.
         destruct (alookup N.eqb c (mvf r)) eqn:E; [|reflexivity]. apply (wi_mvf _ _ _ I) in E. unfold c in E. lia. }
     destruct Hfrom as (ra & evs1 & -> & Hra & Hlk).
     assert (Hra_w : wfp ra = wfp r /\ pfw ra = pfw r) by (destruct Hra as [->| ->]; now split).
+    assert (Hra_p : pend ra = None) by (destruct Hra as [->| ->]; exact Hpd).
     assert (Hto : exists evs2,
       read_batch C (frename p q t1) (ra, k0, evs1)
         match watch_of_ino k (f_ino dq) with Some kw => [mv_to kw false c (basename q)] | None => [] end = Done (ra, k0, evs2)).
     { destruct (watch_of_ino k (f_ino dq)) as [kwq|] eqn:Ewq.
       - destruct (watched_entry w k r dq kwq W I Hdq Ewq) as (_ & _ & (_ & Pq & _) & _).
-        cbn [read_batch]. rewrite (read_one_to_plain _ _ _ _ _ (dirname q)); try (vm_compute; reflexivity).
+        cbn [read_batch]. rewrite read_one_body_eq by exact Hra_p.
+        rewrite (read_one_to_plain _ _ _ _ _ (dirname q)); try (vm_compute; reflexivity).
         + eexists. reflexivity.
         + cbn [mv_to kev k_wd]. destruct Hra_w as [_ ->]. now rewrite Pq, Edq'.
         + exact Hlk.
@@ -2175,7 +2098,7 @@ Section Cover.
   (* ------------------------------------------------------------------ 2b: a directory of the tree renamed over an empty directory of the tree *)
   (* phase 1, shared: the reader on MOVED_FROM; MOVED_TO of a directory inside the tree *)
   Lemma rename_dir_rekey w k r p q ep t_read k0 :
-    wf_fs w -> isdir_in root (w_fs w) -> WInv (w_fs w) k r -> Cover (w_fs w) k r ->
+    wf_fs w -> isdir_in root (w_fs w) -> WInv (w_fs w) k r -> Cover (w_fs w) k r -> pend r = None ->
     npath p -> npath q -> c_recursive C = true ->
     flookup p (w_fs w) = Some ep -> f_dir ep = true -> scope p -> p <> root -> scope q -> q <> root ->
     p <> q -> under p q = false -> (forall e, In e (w_fs w) -> under q (f_path e) = false) ->
@@ -2185,7 +2108,7 @@ Section Cover.
       watch_of_ino k (ino_of (w_fs w) (dirname q)) = Some kwq /\ cov k r ep kwe /\
       read_batch C t_read (r, k0, [])
         [mv_from kwp true (k_next_cookie k) (basename p); mv_to kwq true (k_next_cookie k) (basename q)] = Done (r'', k0, evs) /\
-      mvf r'' = aset N.eqb (k_next_cookie k) p (mvf r) /\
+      mvf r'' = aset N.eqb (k_next_cookie k) p (mvf r) /\ pend r'' = None /\
       (forall e kw, In e (w_fs w) -> f_dir e = true -> scope (f_path e) -> f_path e <> q -> cov k r e kw ->
          alookup beqb (rk p q (f_path e)) (wfp r'') = Some (kw_wd kw) /\
          alookup N.eqb (kw_wd kw) (pfw r'') = Some (rk p q (f_path e))) /\
@@ -2196,7 +2119,7 @@ Section Cover.
                       kw_wd kw = wd /\ y = rk p q (f_path e)) /\
       Forall rsafe evs.
   Proof.
-    intros W Hr I Cv Np Nq Hrec Elp Dep Sp Hpr Sq Hqr Hne Hupq Hbelow Edq.
+    intros W Hr I Cv Hpd Np Nq Hrec Elp Dep Sp Hpr Sq Hqr Hne Hupq Hbelow Edq.
     destruct (flookup_some _ _ _ Elp) as [Hep Eep].
     destruct (scope_parent p Np Sp Hpr) as [Sdp _]. destruct (scope_parent q Nq Sq Hqr) as [Sdq _].
     assert (Urp : under root p = true).
@@ -2216,15 +2139,19 @@ Section Cover.
     destruct (npath_parts p Np) as (Ep & Gdp & Vbp & Jp). destruct (npath_parts q Nq) as (Eq & Gdq & Vbq & Jq).
     assert (SPp : src_path_of (dirname p) (basename p) = p) by (unfold src_path_of; destruct (basename p); [discriminate Vbp | exact Jp]).
     assert (SPq : src_path_of (dirname q) (basename q) = q) by (unfold src_path_of; destruct (basename q); [discriminate Vbq | exact Jq]).
-    cbn [read_batch].
+    cbn [read_batch]. rewrite read_one_body_eq by exact Hpd.
     rewrite (read_one_from _ _ _ _ _ (dirname p)); try (vm_compute; reflexivity); [|cbn [mv_from kev k_wd]; now rewrite Cpp, Edp].
-    cbn [mv_from kev k_cookie k_name]. rewrite SPp.
-    set (r1 := {| wfp := wfp r; pfw := pfw r; mvf := aset N.eqb c p (mvf r); calls := calls r |}).
+    cbn [mv_from kev k_cookie k_name k_mask]. rewrite SPp.
+    rewrite (read_one_after_from _ _ _ _ _ (c_recursive C && is_directory (N.lor IN_MOVED_FROM IN_ISDIR)) p);
+      [|reflexivity | cbn [pfw mv_to kev k_wd]; unfold amem; now rewrite Cpq
+       | cbn [pend mv_to kev k_cookie]; rewrite Hpd, andb_assoc; reflexivity].
+    cbn [wfp pfw mvf calls].
+    set (r1 := {| wfp := wfp r; pfw := pfw r; mvf := aset N.eqb c p (mvf r); calls := calls r; pend := None |}).
     rewrite (read_one_to_rekey _ r1 _ _ _ (dirname q) p (kw_wd kwe)); try (vm_compute; reflexivity);
       [|cbn [mv_to kev k_wd r1 pfw]; now rewrite Cpq, Edq' | cbn [mv_to kev k_cookie r1 mvf]; apply pset_eq | exact Cfe].
     cbn [mv_to kev k_name]. rewrite SPq, Hrec. cbv zeta.
     set (mwd := kw_wd kwe).
-    set (r' := {| wfp := aset beqb q mwd (aremove beqb p (wfp r1)); pfw := aset N.eqb mwd q (pfw r1); mvf := mvf r1; calls := calls r1 |}).
+    set (r' := {| wfp := aset beqb q mwd (aremove beqb p (wfp r1)); pfw := aset N.eqb mwd q (pfw r1); mvf := mvf r1; calls := calls r1; pend := pend r1 |}).
     eexists _, _. split; [exact Cwp|]. split; [exact Cwq|]. split; [exact Cep|]. split; [reflexivity|].
     assert (B' : forall x wd, alookup beqb x (wfp r') = Some wd ->
                 (x = q /\ wd = mwd) \/ (x <> q /\ x <> p /\ alookup beqb x (wfp r) = Some wd)).
@@ -2272,7 +2199,8 @@ Section Cover.
         + rewrite rk_other by assumption. split.
           * destruct (j2 _ _ _ _ J _ _ Hb) as [Hs|(Hu & _)]; [exact Hs | congruence].
           * apply Pf; try assumption. split; [|split]; assumption. }
-    split; [rewrite (j5 _ _ _ _ J); reflexivity|]. split; [exact F|]. split; [exact Pf|]. split.
+    split; [rewrite (j5 _ _ _ _ J); reflexivity|]. split; [unfold r''; now rewrite rekey_loop_pend|].
+    split; [exact F|]. split; [exact Pf|]. split.
     2:{ repeat constructor; apply good_rsafe; split; reflexivity. }
     intros y wd Hy. destruct (j1 _ _ _ _ J y wd Hy) as (x0 & H0 & Hy0).
     destruct (B' x0 wd H0) as [[-> ->]|(Nq0 & Np0 & H0')].
@@ -2291,14 +2219,82 @@ Section Cover.
 
   Lemma read_one_ignored_other t r k acc wd p w' : alookup N.eqb wd (pfw r) = Some p ->
     alookup beqb p (wfp r) = Some w' -> w' <> wd ->
-    read_one C t (r, k, acc) {| k_wd := wd; k_mask := IN_IGNORED; k_cookie := 0; k_name := [] |} =
-    Done ({| wfp := wfp r; pfw := aremove N.eqb wd (pfw r); mvf := mvf r; calls := calls r |}, k,
+    read_one_body C t (r, k, acc) {| k_wd := wd; k_mask := IN_IGNORED; k_cookie := 0; k_name := [] |} =
+    Done ({| wfp := wfp r; pfw := aremove N.eqb wd (pfw r); mvf := mvf r; calls := calls r; pend := pend r |}, k,
           acc ++ [{| r_wd := wd; r_mask := IN_IGNORED; r_cookie := 0; r_name := []; r_path := p |}]).
   Proof.
-    intros Hp Hw Hne. unfold read_one. cbn [k_wd k_mask k_cookie k_name]. rewrite Hp.
+    intros Hp Hw Hne. unfold read_one_body. cbn [k_wd k_mask k_cookie k_name]. rewrite Hp.
     change (is_moved_from IN_IGNORED) with false. change (is_moved_to IN_IGNORED) with false.
     change (is_ignored IN_IGNORED) with true. change (is_directory IN_IGNORED) with false. cbv iota.
     cbn [pfw wfp mvf calls]. rewrite Hp, Hw. apply N.eqb_neq in Hne. rewrite Hne. rewrite andb_false_r. reflexivity.
+  Qed.
+
+  (* Rename of a directory inside the tree (to a fresh name): the moved directory and every directory below it carry
+     the new prefix *)
+  Theorem step_rename_dir_inside w k r p q w' ep : RSync w k r -> npath p -> npath q -> c_recursive C = true ->
+    N.land IN_MOVED_FROM (c_mask C) <> 0%N -> N.land IN_MOVED_TO (c_mask C) <> 0%N ->
+    apply_op w (Rename p q) = Some w' ->
+    flookup p (w_fs w) = Some ep -> f_dir ep = true -> scope p -> p <> root -> scope q -> flookup q (w_fs w) = None ->
+    let k1 := kernel_op k (w_fs w) (Rename p q) in
+    exists r' k' evs, read_batch C (w_fs w') (r, drainq k1, []) (k_queue k1) = Done (r', k', evs) /\ RSync w' k' r'.
+  Proof.
+    intros S Np Nq Hrec Hmf Hmt Ha Elp Dep Sp Hpr Sq Elq k1. destruct S as [W Hr I Cv Hq Hpd].
+    assert (W' : wf_fs w') by exact (wf_apply_op w (Rename p q) w' W (conj Np Nq) Ha).
+    destruct (rename_inv w p q w' W Np Nq Ha) as (ep' & t1 & Elp' & Hne & Hupq & Edq & -> & Hbelow & Hq1).
+    assert (ep' = ep) by congruence. subst ep'.
+    destruct Hq1 as [[_ ->]|(v & Ev & _)]; [|congruence].
+    destruct (flookup_some _ _ _ Elp) as [Hep Eep].
+    assert (Hqr : q <> root).
+    { intros E. destruct Hr as (er & Her & Eer & _). apply flookup_none in Elq. apply Elq. rewrite E, <- Eer. now apply in_map. }
+    assert (Fq : fisdir q (w_fs w) = false) by (unfold fisdir; now rewrite Elq).
+    assert (Fp : fisdir p (w_fs w) = true) by (unfold fisdir; now rewrite Elp).
+    set (t' := frename p q (w_fs w)) in *.
+    set (kf := {| k_watches := k_watches k; k_next_wd := k_next_wd k; k_queue := []; k_next_cookie := k_next_cookie k + 1 |}).
+    destruct (rename_dir_rekey w k r p q ep t' kf W Hr I Cv Hpd Np Nq Hrec Elp Dep Sp Hpr Sq Hqr Hne Hupq Hbelow Edq)
+      as (kwp & kwq & kwe & r'' & evs0 & Cwp & Cwq & Cep & Hrd1 & Hmv & Hpd2 & F & Pf & T & Hsafe0).
+    subst k1. cbn [kernel_op w_fs]. rewrite Fq.
+    rewrite rename_kernel; [|exact Hq|].
+    2:{ intros kw Hk. rewrite (wi_mask _ _ _ I kw Hk). now split. }
+    rewrite Cwp, Cwq, Fp. unfold drainq, kset_queue. cbn [k_watches k_next_wd k_queue k_next_cookie app]. fold kf.
+    rewrite Hrd1. eexists _, _, _. split; [reflexivity|].
+    assert (Hin' : forall e, In e (w_fs w) -> In (ren p q e) t').
+    { intros e He. unfold t'. rewrite frename_map. now apply in_map. }
+    assert (Hnq : forall e, In e (w_fs w) -> f_path e <> q).
+    { intros e He E. apply flookup_none in Elq. apply Elq. rewrite <- E. now apply in_map. }
+    assert (Urp : under root p = true).
+    { unfold scope in Sp. rewrite Hrec in Sp. destruct Sp as [Sp'|Sp']; [contradiction | exact Sp']. }
+    destruct Hr as (er & Her & Eer & Der).
+    assert (Hren_root : ren p q er = er).
+    { unfold ren. rewrite Eer. destruct (beqb root p) eqn:E; [apply beqb_eq in E; congruence|].
+      now rewrite (under_antisym _ _ Urp). }
+    constructor.
+    - exact W'.
+    - exists er. cbn [w_fs]. split; [|auto]. rewrite <- Hren_root. now apply Hin'.
+    - cbn [w_fs]. constructor; cbn [kf k_watches k_next_wd k_next_cookie]; try apply I.
+      + intros kw Hk. destruct (wi_exact _ _ _ I kw Hk) as (e & He & De & Se & Ie & Pe & We).
+        assert (Ce : cov k r e kw).
+        { split; [|split]; try assumption. apply watch_of_ino_in; [apply I | assumption | congruence]. }
+        destruct (F e kw He De Se (Hnq e He) Ce) as [F1 F2].
+        exists (ren p q e). rewrite ren_path, ren_dir, ren_ino. repeat split; try assumption.
+        * now apply Hin'.
+        * now apply scope_rk.
+      + intros y wd Hy. destruct (T y wd Hy) as (e & kw & He & De & Se & Hnq' & Ce & Ewd & Ey).
+        destruct (F e kw He De Se Hnq' Ce) as [_ F2].
+        destruct Ce as (Cw' & _). destruct (watch_of_ino_some _ _ _ Cw') as [Hk _].
+        split; [exists kw; now split|]. rewrite <- Ewd. now rewrite Ey.
+      + rewrite Hmv. apply mvf_aset_lt; [exact 0%N | apply I].
+    - cbn [w_fs]. intros e' He' De' Se'. unfold t' in He'. rewrite frename_map in He'.
+      apply in_map_iff in He' as (e & <- & He).
+      rewrite ren_dir in De'. rewrite ren_path in Se'.
+      assert (Se : scope (f_path e)).
+      { unfold rk in Se'. destruct (beqb (f_path e) p) eqn:E1; [apply beqb_eq in E1; now rewrite E1|].
+        destruct (under p (f_path e)) eqn:E2; [|exact Se']. unfold scope. rewrite Hrec. right.
+        eapply under_trans; eassumption. }
+      destruct (Cv e He De' Se) as (kw & Ce). destruct (F e kw He De' Se (Hnq e He) Ce) as [F1 F2].
+      exists kw. unfold cov. rewrite ren_ino, ren_path. split; [|split]; try assumption.
+      destruct Ce as (Cw' & _). rewrite (watch_of_ino_ext k kf); [exact Cw' | reflexivity].
+    - reflexivity.
+    - exact Hpd2.
   Qed.
 
   Theorem step_rename_dir_over w k r p q w' ep v : RSync w k r -> npath p -> npath q -> c_recursive C = true ->
@@ -2310,7 +2306,7 @@ Section Cover.
     exists r' k' evs, read_batch C (w_fs w') (r, drainq k1, []) (k_queue k1) = Done (r', k', evs) /\ RSync w' k' r' /\
       Forall rsafe evs.
   Proof.
-    intros S Np Nq Hrec Hmf Hmt Ha Elp Dep Sp Hpr Sq Hqr Elq Dv k1. destruct S as [W Hr I Cv Hq].
+    intros S Np Nq Hrec Hmf Hmt Ha Elp Dep Sp Hpr Sq Hqr Elq Dv k1. destruct S as [W Hr I Cv Hq Hpd].
     assert (W' : wf_fs w') by exact (wf_apply_op w (Rename p q) w' W (conj Np Nq) Ha).
     destruct (rename_inv w p q w' W Np Nq Ha) as (ep' & t1 & Elp' & Hne & Hupq & Edq & -> & Hbelow & Hq1).
     assert (ep' = ep) by congruence. subst ep'.
@@ -2324,8 +2320,8 @@ Section Cover.
     set (t' := frename p q (fremove q (w_fs w))) in *.
     set (kf := {| k_watches := filter (fun x => negb (N.eqb (kw_wd x) (kw_wd kwv))) (k_watches k); k_next_wd := k_next_wd k;
                   k_queue := []; k_next_cookie := k_next_cookie k + 1 |}).
-    destruct (rename_dir_rekey w k r p q ep t' kf W Hr I Cv Np Nq Hrec Elp Dep Sp Hpr Sq Hqr Hne Hupq Hbelow Edq)
-      as (kwp & kwq & kwe & r'' & evs0 & Cwp & Cwq & Cep & Hrd1 & Hmv & F & Pf & T & Hsafe0).
+    destruct (rename_dir_rekey w k r p q ep t' kf W Hr I Cv Hpd Np Nq Hrec Elp Dep Sp Hpr Sq Hqr Hne Hupq Hbelow Edq)
+      as (kwp & kwq & kwe & r'' & evs0 & Cwp & Cwq & Cep & Hrd1 & Hmv & Hpd2 & F & Pf & T & Hsafe0).
     (* the kernel *)
     subst k1. cbn [kernel_op w_fs]. rewrite Fq.
     set (k2 := knotify (knotify _ _ _ _ _ _) _ _ _ _ _).
@@ -2356,9 +2352,9 @@ Section Cover.
     assert (Hpre_inert : Forall (inert_ev r'') pre).
     { eapply Forall_impl; [|exact Hpre]. intros a (A1 & A2 & A3). split; [now apply self_mask_inert|]. rewrite A1. eauto. }
     rewrite read_batch_app.
-    destruct (read_batch_inert' t' r'' kf pre Hpre_inert evs0) as (evs1 & -> & HF1).
-    cbn [read_batch]. unfold ign_ev. rewrite (read_one_ignored_other _ _ _ _ _ q (kw_wd kwe) Hpq'' Hwq'' Hne_wd).
-    set (rf := {| wfp := wfp r''; pfw := aremove N.eqb (kw_wd kwv) (pfw r''); mvf := mvf r''; calls := calls r'' |}).
+    destruct (read_batch_inert' t' r'' kf pre Hpd2 Hpre_inert evs0) as (evs1 & -> & HF1).
+    cbn [read_batch]. unfold ign_ev. rewrite read_one_body_eq by exact Hpd2. rewrite (read_one_ignored_other _ _ _ _ _ q (kw_wd kwe) Hpq'' Hwq'' Hne_wd).
+    set (rf := {| wfp := wfp r''; pfw := aremove N.eqb (kw_wd kwv) (pfw r''); mvf := mvf r''; calls := calls r''; pend := pend r'' |}).
     eexists _, _, _. split; [reflexivity|]. split.
     2:{ apply Forall_app. split; [apply Forall_app; split; [exact Hsafe0|]|].
         - apply (inert_raws_path r'' pre evs1 (kw_wd kwv) q HF1); try assumption.
@@ -2420,6 +2416,7 @@ Section Cover.
         apply watch_of_ino_in; [apply NoDup_map_filter, I | apply Hfil; now split | exact Ei].
       * now rewrite prem_neq.
     - reflexivity.
+    - exact Hpd2.
   Qed.
 
   (* ------------------------------------------------------------------ 2b: a directory moved into the tree from outside *)
@@ -2456,7 +2453,7 @@ Section Cover.
     let k1 := kernel_op k (w_fs w) (Rename p q) in
     exists r' k' evs, read_batch C (w_fs w') (r, drainq k1, []) (k_queue k1) = Done (r', k', evs) /\ RSync w' k' r'.
   Proof.
-    intros S Np Nq Hrec Hfix Hmf Hmt Ha Elp Dep Sp Hpr Sq Elq k1. destruct S as [W Hr I Cv Hq].
+    intros S Np Nq Hrec Hfix Hmf Hmt Ha Elp Dep Sp Hpr Sq Elq k1. destruct S as [W Hr I Cv Hq Hpd].
     assert (W' : wf_fs w') by exact (wf_apply_op w (Rename p q) w' W (conj Np Nq) Ha).
     destruct (rename_inv w p q w' W Np Nq Ha) as (ep' & t1 & Elp' & Hne & Hupq & Edq & -> & Hbelow & Hq1).
     assert (ep' = ep) by congruence. subst ep'.
@@ -2494,6 +2491,7 @@ Section Cover.
     assert (Fq' : fisdir q t' = true).
     { apply (in_fisdir q t' (wf_paths _ W')). exists (ren p q ep). apply Hq'. }
     cbn [read_batch].
+    rewrite read_one_body_eq by exact Hpd.
     rewrite (read_one_to_movein _ _ _ _ _ (dirname q)); try (vm_compute; reflexivity).
     2:{ cbn [mv_to kev k_wd]. now rewrite Cpq, Edq'. }
     2:{ left. cbn [mv_to kev k_cookie]. destruct (alookup N.eqb c (mvf r)) eqn:E; [|reflexivity].
@@ -2506,7 +2504,10 @@ Section Cover.
       - apply Forall_forall. intros x Hx. apply (walk_dirs_spec _ q W' Fq') in Hx as (e & He & Ee & De & Ue).
         exists e. repeat split; try assumption. now apply (scope_under q). }
     destruct (cgo_ok _ W' _ k0 r I0 Hps) as (r2 & k2 & _ & Hd & I2 & (Q2 & N2 & M2 & X2) & Cvps & _).
-    cbn [w_fs] in Hd, I2, X2, Cvps. rewrite Hd.
+    cbn [w_fs] in Hd, I2, X2, Cvps.
+    assert (Hpd2 : pend r2 = None).
+    { assert (H := add_dirs_pend t' (q :: walk_dirs t' q) r k0). rewrite Hd in H. cbn [fst] in H. congruence. }
+    rewrite Hd.
     eexists _, _, _. split; [reflexivity|].
     assert (Hroot : ren p q er = er).
     { apply Hren; [exact Her|]. rewrite Eer. unfold scope. rewrite Hrec. now left. }
@@ -2539,7 +2540,7 @@ Section Cover.
     exists r' k' evs, read_batch C (w_fs w') (r, drainq k1, []) (k_queue k1) = Done (r', k', evs) /\ RSync w' k' r' /\
       wfp r' = wfp r /\ pfw r' = pfw r.
   Proof.
-    intros S Np Nq Hmf Hmt Ha Elp Dep Hpr Hqr Hupr Hplain k1. assert (S0 := S). destruct S as [W Hr I Cv Hq].
+    intros S Np Nq Hmf Hmt Ha Elp Dep Hpr Hqr Hupr Hplain k1. assert (S0 := S). destruct S as [W Hr I Cv Hq Hpd].
     assert (W' : wf_fs w') by exact (wf_apply_op w (Rename p q) w' W (conj Np Nq) Ha).
     destruct (rename_inv w p q w' W Np Nq Ha) as (ep' & t1 & Elp' & Hne & Hupq & Edq & -> & Hbelow & Hq1).
     assert (ep' = ep) by congruence. subst ep'. destruct (flookup_some _ _ _ Elp) as [Hep Eep].
@@ -2596,7 +2597,7 @@ Section Cover.
     destruct (npath_parts p Np) as (Ep & Gdp & Vbp & Jp). destruct (npath_parts q Nq) as (Eq & Gdq & Vbq & Jq).
     assert (SPp : src_path_of (dirname p) (basename p) = p) by (unfold src_path_of; destruct (basename p); [discriminate Vbp | exact Jp]).
     assert (SPq : src_path_of (dirname q) (basename q) = q) by (unfold src_path_of; destruct (basename q); [discriminate Vbq | exact Jq]).
-    set (r1 := {| wfp := wfp r; pfw := pfw r; mvf := aset N.eqb c p (mvf r); calls := calls r |}).
+    set (r1 := {| wfp := wfp r; pfw := pfw r; mvf := aset N.eqb c p (mvf r); calls := calls r; pend := pend r |}).
     assert (Hwp : alookup beqb p (wfp r) = None).
     { destruct (alookup beqb p (wfp r)) as [wd|] eqn:E; [|reflexivity]. exfalso.
       destruct (tight_entry w k r p wd I E) as (e & _ & He & De & Se & Ee & _). apply Sp. now rewrite <- Ee. }
@@ -2609,25 +2610,29 @@ Section Cover.
     { destruct (watch_of_ino k (ino_of (w_fs w) (dirname p))) as [kwp|] eqn:Ewp.
       - destruct (watch_pfw (w_fs w) k r _ kwp I Ewp) as [wp Pp].
         (* the watched parent is an entry whose path is dirname p *)
-        assert (Ewp' : wp = dirname p).
+        assert (Ewp' : wp = dirname p /\ c_recursive C = false).
         { unfold ino_of in Ewp. destruct (flookup (dirname p) (w_fs w)) as [dp|] eqn:Edp.
-          - destruct (flookup_some _ _ _ Edp) as [Hdp Edp']. destruct (watched_entry w k r dp kwp W I Hdp Ewp) as (_ & _ & (_ & Pp' & _) & _).
-            congruence.
+          - destruct (flookup_some _ _ _ Edp) as [Hdp Edp']. destruct (watched_entry w k r dp kwp W I Hdp Ewp) as (Sdp & _ & (_ & Pp' & _) & _).
+            split; [congruence|]. destruct (c_recursive C) eqn:Hrec; [|reflexivity]. exfalso. apply Sp. rewrite Ep.
+            apply scope_child; [now rewrite <- Edp' | exact Hrec].
           - exfalso. apply watch_of_ino_some in Ewp as [Hk Ei]. destruct (wi_exact _ _ _ I kwp Hk) as (e & He & _ & _ & Ie & _).
             assert (H0 := wf_fresh w W e He). lia. }
-        subst wp. cbn [read_batch]. rewrite (read_one_from _ _ _ _ _ (dirname p)); try (vm_compute; reflexivity); [|exact Pp].
-        cbn [mv_from kev k_cookie k_name]. rewrite SPp. fold r1. eexists r1, _. split; [reflexivity|]. split; [now right|].
+        destruct Ewp' as [-> Hnr]. cbn [read_batch]. rewrite read_one_body_eq by exact Hpd.
+        rewrite (read_one_from _ _ _ _ _ (dirname p)); try (vm_compute; reflexivity); [|exact Pp].
+        cbn [mv_from kev k_cookie k_name k_mask]. rewrite Hnr, andb_false_r. cbn [andb]. rewrite SPp. fold r1. eexists r1, _. split; [reflexivity|]. split; [now right|].
         right. exists p. cbn [r1 mvf wfp]. split; [apply pset_eq | exact Hwp].
       - exists r, []. split; [reflexivity|]. split; [now left|]. left.
         destruct (alookup N.eqb c (mvf r)) eqn:E; [|reflexivity]. apply (wi_mvf _ _ _ I) in E. unfold c in E. lia. }
     destruct Hfrom as (ra & evs1 & -> & Hra & Hlk).
     assert (Hra_w : wfp ra = wfp r /\ pfw ra = pfw r) by (destruct Hra as [->| ->]; now split).
+    assert (Hra_p : pend ra = None) by (destruct Hra as [->| ->]; exact Hpd).
     assert (Hto : exists evs2,
       read_batch C (frename p q t1) (ra, k0, evs1)
         match watch_of_ino k (f_ino dq) with Some kw => [mv_to kw true c (basename q)] | None => [] end = Done (ra, k0, evs2)).
     { destruct (watch_of_ino k (f_ino dq)) as [kwq|] eqn:Ewq.
       - destruct (watched_entry w k r dq kwq W I Hdq Ewq) as (Sdq & _ & (_ & Pq & _) & _).
-        cbn [read_batch]. rewrite (read_one_to_plain _ _ _ _ _ (dirname q)); try (vm_compute; reflexivity).
+        cbn [read_batch]. rewrite read_one_body_eq by exact Hra_p.
+        rewrite (read_one_to_plain _ _ _ _ _ (dirname q)); try (vm_compute; reflexivity).
         + eexists. reflexivity.
         + cbn [mv_to kev k_wd]. destruct Hra_w as [_ ->]. now rewrite Pq, Edq'.
         + exact Hlk.
@@ -2643,8 +2648,9 @@ Section Cover.
   Qed.
 
   (* ------------------------------------------------------------------ 2b: a directory moved out of the tree.
-     Everything under the root is still covered; the kernel watches of the departed directories and their entries
-     in both maps stay behind (finding F10), so WInv - no stale watch - does not hold afterwards. *)
+     Everything under the root is still covered.  The departed sub-tree's watches and map entries are still there and
+     the move-out candidate is set: pend = Some (cookie, old path); the next record processed (of any later operation)
+     forgets them (settle_pending / forget_tree).  Pinned code: they stay behind for ever (finding F10). *)
   Theorem step_rename_dir_out w k r p q w' ep : RSync w k r -> npath p -> npath q -> c_recursive C = true ->
     N.land IN_MOVED_FROM (c_mask C) <> 0%N -> N.land IN_MOVED_TO (c_mask C) <> 0%N ->
     apply_op w (Rename p q) = Some w' -> flookup p (w_fs w) = Some ep -> f_dir ep = true ->
@@ -2652,9 +2658,12 @@ Section Cover.
     let k1 := kernel_op k (w_fs w) (Rename p q) in
     exists r' k' evs, read_batch C (w_fs w') (r, drainq k1, []) (k_queue k1) = Done (r', k', evs) /\
       wf_fs w' /\ isdir_in root (w_fs w') /\ Cover (w_fs w') k' r' /\ k_queue k' = [] /\
-      wfp r' = wfp r /\ pfw r' = pfw r /\ k_watches k' = k_watches k.
+      wfp r' = wfp r /\ pfw r' = pfw r /\ k_watches k' = k_watches k /\
+      pend r' = (if c_fix_moveout C then Some (k_next_cookie k, p) else None) /\
+      mvf r' = aset N.eqb (k_next_cookie k) p (mvf r) /\ k_next_wd k' = k_next_wd k /\
+      k_next_cookie k' = (k_next_cookie k + 1)%N /\ Forall rsafe evs.
   Proof.
-    intros S Np Nq Hrec Hmf Hmt Ha Elp Dep Sp Hpr Sq k1. destruct S as [W Hr I Cv Hq].
+    intros S Np Nq Hrec Hmf Hmt Ha Elp Dep Sp Hpr Sq k1. destruct S as [W Hr I Cv Hq Hpd].
     assert (W' : wf_fs w') by exact (wf_apply_op w (Rename p q) w' W (conj Np Nq) Ha).
     destruct (rename_inv w p q w' W Np Nq Ha) as (ep' & t1 & Elp' & Hne & Hupq & Edq & -> & Hbelow & Hq1).
     assert (ep' = ep) by congruence. subst ep'. destruct (flookup_some _ _ _ Elp) as [Hep Eep].
@@ -2686,14 +2695,17 @@ Section Cover.
     rewrite Ekg, Ek2. cbn [k_queue read_batch].
     destruct (npath_parts p Np) as (Ep & Gdp & Vbp & Jp).
     assert (SPp : src_path_of (dirname p) (basename p) = p) by (unfold src_path_of; destruct (basename p); [discriminate Vbp | exact Jp]).
+    rewrite read_one_body_eq by exact Hpd.
     rewrite (read_one_from _ _ _ _ _ (dirname p)); try (vm_compute; reflexivity); [|cbn [mv_from kev k_wd]; now rewrite Cpp, Edp].
-    eexists _, _, _. split; [reflexivity|]. cbn [wfp pfw drainq kset_queue k_queue k_watches w_fs].
+    cbn [mv_from kev k_cookie k_name k_mask]. change (is_directory (N.lor IN_MOVED_FROM IN_ISDIR)) with true.
+    rewrite Hrec, !andb_true_r, SPp, Hpd.
+    eexists _, _, _. split; [reflexivity|]. cbn [wfp pfw pend mvf drainq kset_queue k_queue k_watches k_next_wd k_next_cookie w_fs app].
     split; [exact W'|].
     assert (Hkeep_root : ren p q er = er).
     { unfold ren. rewrite Eer. destruct (beqb root p) eqn:E; [apply beqb_eq in E; congruence|]. now rewrite (under_antisym _ _ Urp). }
     assert (Hsub : forall e, In e t1 -> In e (w_fs w)).
     { intros e He. destruct Hq1 as [[_ ->]|(v & _ & -> & _)]; [assumption | now apply fremove_in in He]. }
-    split; [|split; [|repeat split; reflexivity]].
+    split; [|split; [|repeat split; try reflexivity; repeat constructor; apply good_rsafe; split; reflexivity]].
     - exists er. split; [|auto]. rewrite frename_map, <- Hkeep_root. apply in_map.
       destruct Hq1 as [[_ ->]|(v & _ & -> & _)]; [assumption | apply fremove_in; split; [assumption | congruence]].
     - intros e' He' De' Se'. rewrite frename_map in He'. apply in_map_iff in He' as (e & <- & He0). assert (He := Hsub e He0).
@@ -2822,7 +2834,7 @@ Section Cover.
     exists r0 k0 w' k' r', construct C kinit (w_fs w) = Some (r0, k0) /\ rrun w k0 r0 ops = Some (w', k', r') /\
       wf_fs w' /\ Cover (w_fs w') k' r'.
   Proof.
-    intros M W Hroot Hc. destruct (construct_cover w W Hroot) as (r0 & k0 & Hcons & I & Cv & Hq & _).
+    intros M W Hroot Hc. destruct (construct_cover w W Hroot) as (r0 & k0 & Hcons & I & Cv & Hq & _ & Hp0).
     assert (S : RSync w k0 r0) by (constructor; try assumption; now apply fisdir_in).
     destruct (cover_sequential ops M w k0 r0 S Hc) as (w' & k' & r' & Hrun & S').
     exists r0, k0, w', k', r'. split; [assumption|]. split; [assumption|]. split; apply S'.
@@ -2918,7 +2930,7 @@ Definition w0 : world :=
      w_next_ino := 5 |}.
 Definition cfgx (recursive movein : bool) : cfg :=
   {| c_recursive := recursive; c_mask := WATCHDOG_ALL; c_root := pR; c_fix_ignored := true; c_fix_movein := movein;
-     c_fix_simulate := true; c_faults := [] |}.
+     c_fix_simulate := true; c_fix_moveout := true; c_faults := [] |}.
 Definition Px (movein : bool) : pcfg :=
   {| pc_reader := cfgx true movein; pc_full := false; pc_filter := None; pc_delay := 5 |}.
 
@@ -3000,7 +3012,7 @@ Theorem probe_raws C w k r de name w' : RSync C w k r -> c_mask C = WATCHDOG_ALL
   let k1 := kernel_op k (w_fs w) (Touch p) in
   exists wd, read_batch C (w_fs w') (r, drainq k1, []) (k_queue k1) = Done (r, drainq k1, touch_raws wd name p).
 Proof.
-  intros S Hm Hde Dde Sde Vn p Ha k1. destruct S as [W Hr I Cv Hq].
+  intros S Hm Hde Dde Sde Vn p Ha k1. destruct S as [W Hr I Cv Hq Hpd].
   assert (Gd : gpath (f_path de)) by (apply npath_gpath; now apply (wf_np w W)).
   assert (Edn : dirname p = f_path de) by now apply dirname_np.
   assert (Ebn : basename p = name) by now apply basename_np.
@@ -3018,9 +3030,9 @@ Proof.
   cbn [kset_queue k_queue app]. rewrite (kpush_snoc [kev kw IN_CREATE false 0 name] (kev kw IN_OPEN false 0 name)) by (vm_compute; discriminate).
   cbn [app read_batch].
   assert (Hsp : src_path_of (f_path de) name = p) by (unfold src_path_of; destruct name; [discriminate Vn | exact Ejn]).
-  rewrite (read_one_inert C _ _ _ _ _ (f_path de)); [|unfold inert; repeat split; vm_compute; reflexivity | exact Cp].
-  rewrite (read_one_inert C _ _ _ _ _ (f_path de)); [|unfold inert; repeat split; vm_compute; reflexivity | exact Cp].
-  rewrite (read_one_inert C _ _ _ _ _ (f_path de)); [|unfold inert; repeat split; vm_compute; reflexivity | exact Cp].
+  rewrite (read_one_inert C _ _ _ _ _ (f_path de) Hpd); [|unfold inert; repeat split; vm_compute; reflexivity | exact Cp].
+  rewrite (read_one_inert C _ _ _ _ _ (f_path de) Hpd); [|unfold inert; repeat split; vm_compute; reflexivity | exact Cp].
+  rewrite (read_one_inert C _ _ _ _ _ (f_path de) Hpd); [|unfold inert; repeat split; vm_compute; reflexivity | exact Cp].
   unfold raw_ev, kev. cbn [k_wd k_mask k_cookie k_name app]. rewrite Hsp.
   eexists. reflexivity.
 Qed.
@@ -3046,7 +3058,7 @@ Theorem flat C w k r p w' : RSync C w k r -> c_recursive C = false -> dirname p 
   (apply_op w (Touch p) = Some w' -> k_queue (kernel_op k (w_fs w) (Touch p)) = []) /\
   (apply_op w (Mkdir p) = Some w' -> k_queue (kernel_op k (w_fs w) (Mkdir p)) = []).
 Proof.
-  intros S Hrec Hd. destruct S as [W Hr I Cv Hq].
+  intros S Hrec Hd. destruct S as [W Hr I Cv Hq Hpd].
   assert (Hun : fisdir (dirname p) (w_fs w) = true -> watch_of_ino k (ino_of (w_fs w) (dirname p)) = None).
   { intros Ed. destruct (fisdir_in _ _ Ed) as (de & Hde & Ede & _).
     assert (Eino : ino_of (w_fs w) (dirname p) = f_ino de).
